@@ -203,11 +203,11 @@ def configs(tier, seed):
                                 out.append(dict(sched="hb", type=typ, searcher=searcher, data=data, myopic=myopic, brackets=brackets,
                                                 scratch=scratch, mode=mode, rs=rs_name, T=Tc, W=2, F=1, seed=seed,
                                                 use_mra=(typ == "promotion" and i % 2 == 0), perms={str(levels[0]): p1},
-                                                max_states=1500 if tier == "quick" else 20000))
+                                                max_states=1500 if tier == "quick" else 8000))
     for data in ("rungs", "all"):
         for mode in ("min", "max"):
             out.append(dict(sched="shb", data=data, mode=mode, rs="g1rf2m4", T=4, W=2, F=1, seed=seed, perms={"1": (0, 1, 2, 3)},
-                            scratch=(mode == "max"), max_states=1500 if tier == "quick" else 20000))
+                            scratch=(mode == "max"), max_states=1500 if tier == "quick" else 8000))
     return out
 
 
